@@ -159,7 +159,7 @@ m("C08", "identifier-evaluates-to-nil", "src/process/evaluator/mod.rs",
   "            Expression::Call(_)\n            | Expression::Field(_)\n            | Expression::Identifier(_)\n            | Expression::Index(_)\n            | Expression::VariableArguments(_) => LuaValue::Unknown,",
   "            Expression::Identifier(_) => LuaValue::Nil,\n            Expression::Call(_)\n            | Expression::Field(_)\n            | Expression::Index(_)\n            | Expression::VariableArguments(_) => LuaValue::Unknown,", "C08.opaque|evaluate|Identifier")
 m("C08", "calls-are-pure", "src/process/evaluator/mod.rs",
-  "    fn call_has_side_effects(&self, _call: &FunctionCall) -> bool {\n        true", "    fn call_has_side_effects(&self, _call: &FunctionCall) -> bool {\n        false", "C08.effects|call_has_side_effects|constant-true")
+  "    fn call_has_side_effects(&self, _call: &FunctionCall) -> bool {\n        true", "    fn call_has_side_effects(&self, _call: &FunctionCall) -> bool {\n        false", "C08.effects|has_side_effects|Call")
 m("C08", "unknown-is-truthy", "src/process/evaluator/lua_value.rs",
   "            Self::Unknown => None,\n            Self::Nil | Self::False => Some(false),\n            _ => Some(true),", "            Self::Nil | Self::False => Some(false),\n            _ => Some(true),", "C08.domain|is_truthy|Unknown")
 m("C09", "names-inserted-before-values", "src/process/scope_visitor.rs",
@@ -167,7 +167,7 @@ m("C09", "names-inserted-before-values", "src/process/scope_visitor.rs",
   "        statement.for_each_assignment(|variable, expression| {\n            scope.insert_local(variable.mutate_name(), expression)\n        });\n\n        statement\n            .iter_mut_values()\n            .for_each(|value| Self::visit_expression(value, scope));\n\n        for r#type in statement\n            .iter_mut_variables()\n            .filter_map(TypedIdentifier::mutate_type)\n        {\n            Self::visit_type(r#type, scope);\n        }\n    }\n\n    fn visit_function_expression(function: &mut FunctionExpression, scope: &mut T) {\n        scope.process_function_expression(function);",
   "C09.order|ScopeVisitor|visit_local_assign|expr:<insert_local")
 m("C09", "unfiltered-name", "src/rules/rename_variables/rename_processor.rs",
-  "            if self.filter_identifier(&generated) {\n                generated\n            } else {\n                self.generate_identifier()\n            }", "            generated", "C09.fresh|generate_identifier|result@")
+  "            if self.filter_identifier(&generated) {\n                generated\n            } else {\n                self.generate_identifier()\n            }", "            generated", "C09.pool|insert|generated-filtered")
 m("C14", "bare-key-without-check", "src/process/expression_serializer.rs",
   "                        if let Some(value) = string\n                            .get_string_value()\n                            .filter(|value| is_valid_identifier(value))\n                        {",
   "                        if let Some(value) = string.get_string_value() {", "C14.ident|Serializer::complete_table_entry|")
